@@ -103,6 +103,11 @@ func mkData(fn string, v int) any {
 	case "ldesc":
 		return &model.LoadControlLimitDescriptionListDataType{LoadControlLimitDescriptionData: []model.LoadControlLimitDescriptionDataType{{
 			LimitId: ptr(model.LoadControlLimitIdType(0)), Description: ptr(model.DescriptionType(fmt.Sprint(v)))}}}
+	case "kvdesc":
+		return &model.DeviceConfigurationKeyValueDescriptionListDataType{DeviceConfigurationKeyValueDescriptionData: []model.DeviceConfigurationKeyValueDescriptionDataType{{
+			KeyId: ptr(model.DeviceConfigurationKeyIdType(0)), Description: ptr(model.DescriptionType(fmt.Sprint(v)))}}}
+	case "mfr":
+		return &model.DeviceClassificationManufacturerDataType{DeviceName: ptr(model.DeviceClassificationStringType(fmt.Sprint(v)))}
 	case "meas":
 		return &model.MeasurementListDataType{MeasurementData: []model.MeasurementDataType{{
 			MeasurementId: ptr(model.MeasurementIdType(0)), Value: model.NewScaledNumberType(float64(v))}}}
@@ -197,7 +202,7 @@ func (s *System) abstractOut(p *Peer, raw []byte, injected uint64) (AbsDg, *mode
 		}
 	default:
 		if d.K == "reply" || d.K == "notify" {
-			if _, ok := fnMap[d.Fn]; ok {
+			if d.Fn == "limit" || d.Fn == "kv" || d.Fn == "meas" {
 				d.Val = dataVal(*cd.Function, cd.Value)
 			}
 		}
